@@ -358,7 +358,7 @@ func referenceSelection(topo *sim.Topology, op sim.Op) []string {
 			}
 			okLabels := true
 			for k, v := range op.Labels {
-				if n.Labels[k] != v {
+				if have, ok := n.Labels[k]; !ok || have != v { // "carries the label": the key is there, with that value
 					okLabels = false
 				}
 			}
@@ -508,6 +508,11 @@ func TestC21(t *testing.T) {
 			topo.Nodes[0].Up, topo.Nodes[0].Bypass = true, true
 			topo.Nodes[1].Up, topo.Nodes[1].Bypass = false, false
 		}
+		for k := range topo.Nodes {
+			if r.Intn(3) == 0 {
+				topo.Nodes[k].Labels["gpu"] = "" // the key is there, its value is empty
+			}
+		}
 		if err := w.rebuild(topo, nil); err != nil {
 			rec.Inconclusive("rebuild failed: %v", err)
 			continue
@@ -539,6 +544,12 @@ func TestC21(t *testing.T) {
 				op.Labels = map[string]string{"zone": []string{"a", "b"}[r.Intn(2)]}
 				if r.Intn(3) == 0 {
 					op.Labels["disk"] = "ssd"
+				}
+				switch r.Intn(4) { // labels whose value is the empty string: only nodes that really carry the key qualify
+				case 0:
+					op.Labels = map[string]string{"gpu": ""}
+				case 1:
+					op.Labels["gpu"] = ""
 				}
 			case 4:
 				op.All = true
